@@ -151,8 +151,21 @@ def run_case(case):
         tl = env.TL(terms)
         used = {n for t in terms for n in t[0]}
         missing = sorted(used - set(beh))
+        two_step = (not missing) and len(beh) >= 2 and (sum(map(ord, "".join(sorted(beh)))) + len(terms)) % 4 == 0
         try:
-            got = tl.contains_behavior(_beh(beh))
+            if two_step:
+                # the same question in two steps: substitute some of the values first, ask about the rest afterwards
+                keys = list(beh)
+                first = {k: beh[k] for k in keys[:len(keys) // 2]}
+                rest = {k: beh[k] for k in keys[len(keys) // 2:]}
+                labels.append("two-step")
+                try:
+                    part = tl.evaluate(_beh(first))
+                except ValueError:
+                    part = None      # documented: the values already violate a constraint
+                got = False if part is None else part.contains_behavior(_beh({k: v for k, v in rest.items() if k in {x.name for x in part.vars}}))
+            else:
+                got = tl.contains_behavior(_beh(beh))
             raised = None
         except ValueError as e:
             got, raised = None, e
